@@ -13,7 +13,7 @@ import numpy as np
 
 from ..models import voltage as mv
 from ..seams import _REAL_DEFAULT_RNG
-from ..core import ulp as core_ulp
+from ..core import ulp as core_ulp, InjectedCallbackError
 
 ID = "C10"
 WORLD = "stream"
@@ -29,7 +29,7 @@ ASSUMPTIONS = ["numpy Generator.standard_normal is stream-consistent (n1 then n2
                "at most one noise source per stream (two sources share one generator, so their draws legitimately interleave per request)",
                "custom sources are pure functions of the time array"]
 PROBES = ["dyadic_bitwise", "request_len_1", "control_set_time", "control_add_time", "control_reset_start",
-          "control_update_noise", "complex_source", "descending_band", "antenna_two_pols", "negative_drift"]
+          "control_update_noise", "complex_source", "descending_band", "antenna_two_pols", "negative_drift", "source_callback_error"]
 
 
 def startup_checks():
@@ -75,6 +75,16 @@ def generate(rng, tier):
     ops = []
     for _ in range(rng.randint(2, 12)):
         r = rng.random()
+        if r < 0.06:
+            # a request that dies part-way (a user source raises), then the documented ways of re-synchronising
+            ops.append({"op": "fault_get", "n": rng.choice([1, 5, 64, 1000]), "pol": rng.randrange(pols)})
+            if kind == "stream" or rng.random() < 0.4:
+                ops.append({"op": "set_time", "t": (rng.randrange(0, 1 << 14) / 16.0) if dyadic else rng.choice([0.0, 7.3, 100.0])})
+            elif rng.random() < 0.5:
+                ops.append({"op": "add_time", "t": rng.choice([0.0, 0.5, 2.0]) if dyadic else rng.choice([0.0, 0.1, 2.5])})
+            else:
+                ops.append({"op": "reset_start"})
+            continue
         if r < 0.66:
             ops.append({"op": "get", "n": rng.choice([1, 1, 2, 3, 5, 8, 16, 31, 64, 100, 255, 256, 1000, 1024, 4096])})
         elif r < 0.75:
@@ -171,7 +181,20 @@ def build(cfg, setigen_voltage):
     return top, streams
 
 
-def add_sources(streams, cfg):
+class Gate:
+    """A user source that contributes nothing, unless armed: then it raises (a callback failing part-way)."""
+
+    def __init__(self):
+        self.armed = False
+
+    def __call__(self, ts):
+        if self.armed:
+            self.armed = False
+            raise InjectedCallbackError("user source failed")
+        return 0.0
+
+
+def add_sources(streams, cfg, gates=None):
     for s, src in zip(streams, cfg["sources"]):
         if src["noise"] is not None:
             s.add_noise(src["noise"][0], src["noise"][1])
@@ -179,6 +202,10 @@ def add_sources(streams, cfg):
             s.add_constant_signal(f_start=ch["f_start"], drift_rate=ch["drift"], level=ch["level"], phase=ch["phase"])
         for cu in src["customs"]:
             s.add_signal(make_custom(cu))
+        if gates is not None:
+            g = Gate()
+            gates.append(g)
+            s.add_signal(g)
 
 
 class RefStream:
@@ -272,7 +299,8 @@ def execute(sc, ctx):
     dy = cfg["dyadic"]
     top, streams = build(cfg, sv)
     states = [copy.deepcopy(s.rng.bit_generator.state) for s in streams]
-    add_sources(streams, cfg)
+    gates = []
+    add_sources(streams, cfg, gates)
     refs = [RefStream(cfg, src, st) for src, st in zip(cfg["sources"], states)]
     twin, tstreams = build(cfg, sv)
     add_sources(tstreams, cfg)
@@ -293,6 +321,7 @@ def execute(sc, ctx):
     pend_n = 0
     ngets = 0
     nsamples = 0
+    faulted = False
 
     def flush():
         """Relational oracle: the epoch's chunks == one request on the twin."""
@@ -320,6 +349,8 @@ def execute(sc, ctx):
     for op in sc["ops"]:
         ctx.op(op["op"])
         kind = op["op"]
+        if kind == "get" and last_ctrl == "fault":
+            return              # no recovery op was issued (e.g. removed by the minimiser): nothing the statement defines
         if kind == "get":
             n = op["n"]
             if n == 1:
@@ -379,7 +410,34 @@ def execute(sc, ctx):
                 ctx.nontrivial = True
             last_ctrl_was = last_ctrl
             last_ctrl = "get"
+        elif kind == "fault_get":
+            flush()
+            epoch_ts = [[] for _ in refs]
+            p = op["pol"] % len(streams)
+            t_ant = top.t_start
+            gates[p].armed = True
+            try:
+                top.get_samples(op["n"])
+                raised = False
+            except InjectedCallbackError:
+                raised = True
+            gates[p].armed = False
+            ctx.event("fault_get", raised)
+            if not raised:
+                return
+            ctx.fired("source_callback_error")
+            faulted = True
+            if is_ant:
+                ctx.check(top.t_start == t_ant, "clock", "C10/fault/antenna_clock_moved_by_failed_request", "")
+            # what the failed request consumed from the generators is not specified: re-read, for reference and twin
+            for k2, (st_, r_) in enumerate(zip(streams, refs)):
+                r_.gen.bit_generator.state = copy.deepcopy(st_.rng.bit_generator.state)
+                tstreams[k2].rng.bit_generator.state = copy.deepcopy(st_.rng.bit_generator.state)
+            last_ctrl = "fault"
+            continue
         else:
+            if last_ctrl == "fault" and not is_ant and kind != "set_time":
+                return          # a bare stream is only re-synchronised by set_time
             flush()
             epoch_ts = [[] for _ in refs]
             if kind == "set_time":
@@ -409,8 +467,9 @@ def execute(sc, ctx):
                     twin.add_time(0)
                 for r in refs:
                     r.add_time(0)
-                ctx.check([s.t_start for s in streams] == before, "clock", "C10/clock/reset_start_moves_clock",
-                          "reset_start changed t_start")
+                if last_ctrl != "fault":       # after a failed request re-synchronising the streams is the point
+                    ctx.check([s.t_start for s in streams] == before, "clock", "C10/clock/reset_start_moves_clock",
+                              "reset_start changed t_start")
                 _clock_checks(ctx, top, streams, refs, is_ant, dy, True)
             elif kind == "update_noise":
                 ctx.hit("control_update_noise")
@@ -423,6 +482,8 @@ def execute(sc, ctx):
                 ctx.check((s.t_start, s.start_obs) == before, "clock", "C10/clock/update_noise_moves_clock",
                           lambda: "before %r after %r" % (before, (s.t_start, s.start_obs)))
                 ctx.event("update_noise", float(s.noise_std))
+            if last_ctrl == "fault":
+                ctx.hit("recovered_after_failed_request:" + kind)
             last_ctrl = kind
         if ctx.violations and ctx.stop_on_violation:
             return
